@@ -89,7 +89,12 @@ def load_multievent():
     return ns
 
 
+FAR = 99999999                      # a time / deadline that is neither "none" nor plausible
+
+
 def _ticks(x):
+    if abs(x) > 1e7:
+        return FAR
     r = round(x)
     return int(r) if abs(x - r) < 1e-6 else -7
 
@@ -97,6 +102,15 @@ def _ticks(x):
 def _dl(v):
     """absolute monotonic deadline -> ticks since the start / INF / NODL"""
     if v is None or v >= 1e98:
+        return INF
+    if v == 0:
+        return NODL
+    return _ticks(v - MONO0)
+
+
+def _dlcall(v):
+    """result of MultiEvent.deadline(): None = no limit, 0 = nothing outstanding"""
+    if v is None:
         return INF
     if v == 0:
         return NODL
@@ -189,7 +203,7 @@ class World:
                 res = {'sres': m.waiting_for()}
             elif kind == 'deadline':
                 self.begin('deadline')
-                res = {'ires': _dl(m.deadline())}
+                res = {'ires': _dlcall(m.deadline())}
             elif kind == 'isset':
                 self.begin('isset', e=op[1])
                 res = {'bres': self.ev[op[1]].is_set()}
@@ -292,7 +306,7 @@ def replay_behaviour(beh, dto):
             names = sorted(m.waiting_for())
         except Exception as e:      # noqa
             names = [type(e).__name__]
-        return {'pend': names, 'dl': _dl(m.deadline()), 'mset': bool(m.is_set()), 'ran': list(state['ran']),
+        return {'pend': names, 'dl': _dlcall(m.deadline()), 'mset': bool(m.is_set()), 'ran': list(state['ran']),
                 'now': _ticks(s.now - T0), 'nq': len(m._actions),
                 'isset': sorted(e for e, o in state['ev'].items() if o.is_set()),
                 'blocked': sorted(n.split('#')[0] for n, t in s.threads.items() if n != 'main' and not t.finished),
@@ -350,7 +364,8 @@ def replay_behaviour(beh, dto):
             if obs['isset'] != sorted(exp['isset']):
                 isset_bad.append({'step': k, 'expected': sorted(exp['isset']), 'observed': obs['isset']})
 
-    m = ns['MultiEvent'](None if dto == INF else dto)
+    # "treat 0 as None": every second behaviour without default time-out gives 0 to the constructor
+    m = ns['MultiEvent']((0 if len(json.dumps(beh)) % 2 else None) if dto == INF else dto)
     s.spawn('main', driver)
     s.run()
     t = s.threads['main']
@@ -413,6 +428,8 @@ SCEN = {
     # mixed deadlines: min(own time-out, largest deadline of what is outstanding when wait() looks)
     'timeouts': _sc(None, main=[('new', 'e1', 5, None), ('new', 'e2', 10, None), ('new', 'e3', None, None), ('spawn', ['a', 'w1', 'w2'])],
                     a=[('sleep', 6), ('set', 'e3')], w1=[('wait', 3), ('wait', None)], w2=[('sleep', 7), ('wait', None), ('deadline',)]),
+    'zero_default': _sc(0, main=[('new', 'e1', None, None), ('trig', 'e2', 0, 'x'), ('new', 'e3', 4, None), ('deadline',), ('spawn', ['a', 'w1'])],
+                        a=[('sleep', 5), ('set', 'e3'), ('deadline',), ('set', 'e1')], w1=[('wait', None), ('wfor',), ('wait', 2)]),
     'stuck': _sc(None, main=[('new', 'e1', None, None), ('spawn', ['w1', 'a'])], w1=[('wait', None)], a=[('wait', 2), ('deadline',)]),
     # an action that takes time (it runs under the lock): creation and waiting meanwhile
     'slow_action': _sc(None, {'a1': 'slow'}, main=[('new', 'e1', None, None), ('queue', 'a1'), ('spawn', ['a', 'b', 'w1'])],
@@ -425,7 +442,7 @@ PREDICTED = {'Dev_IterRace': 'server', 'Dev_SpuriousTimeout': 'server', 'Dev_Hal
 
 def random_scenario(seed):
     rnd = random.Random(seed)
-    dto = rnd.choice([None, None, 4, 8])
+    dto = rnd.choice([None, 0, 4, 8])
     ids = ['e1', 'e2', 'e3'][:rnd.randint(1, 3)]
     main = [('new' if rnd.random() < 0.5 else 'trig', e, rnd.choice([None, None, 0, 3, 6]), rnd.choice([None, 'n' + e])) for e in ids]
     names = rnd.sample(['a', 'b', 'c', 'w1'], rnd.randint(2, 3))
@@ -525,13 +542,19 @@ def _two_pass(traces):
     return res, st, tr
 
 
-def _corrupt_must_be_rejected(trace, mutate, what):
-    bad = json.loads(json.dumps(trace))
-    mutate(bad)
-    verdicts, _, _ = validate_traces('Trace_MultiEventX', [trace, bad], 'Trace_MultiEventX_dev.cfg', timeout=300)
-    if verdicts[0] is not None or verdicts[1] is None:
-        raise MachineryError(f'Trace_MultiEventX self-test "{what}" failed (original accepted: {verdicts[0] is None}, '
-                             f'corrupted rejected: {verdicts[1] is not None})')
+def _corrupt_must_be_rejected(trace, mutations):
+    """binding self-test: the recording is accepted, each corrupted copy is rejected (one TLC run)"""
+    batch = [trace]
+    for _, mutate in mutations:
+        bad = json.loads(json.dumps(trace))
+        mutate(bad)
+        batch.append(bad)
+    verdicts, _, _ = validate_traces('Trace_MultiEventX', batch, 'Trace_MultiEventX_dev.cfg', timeout=300)
+    if verdicts[0] is not None:
+        raise MachineryError('Trace_MultiEventX self-test: the uncorrupted recording is rejected')
+    for j, (what, _) in enumerate(mutations, 1):
+        if verdicts[j] is None:
+            raise MachineryError(f'Trace_MultiEventX self-test "{what}": the corrupted recording is accepted')
 
 
 # ------------------------------------------------------------------ design level
@@ -558,3 +581,216 @@ def _coverage(r):
         name = nm.group(1) if nm else 'Tick'
         cnt[name] = max(cnt.get(name, 0), int(m.group(3)))
     return cnt
+
+
+# ------------------------------------------------------------------ the check
+
+GEN_DTO = {'wait': 3, 'queue': INF, 'names': 2}
+
+
+def _corpus():
+    from ..core import VERIF
+    f = VERIF / 'corpus' / 'X04.json'
+    return json.loads(f.read_text()) if f.exists() else []
+
+
+def _corpus_job(entry):
+    return _result(run_scenario(SCEN[entry['scenario']], ds.GuidedStrategy(entry['choices'])))
+
+
+def run(chk):
+    import time as _t
+    quick = chk.tier == 'quick'
+    tier = 'quick' if quick else 'thorough'
+    t0 = _t.time()
+    stage = {}
+    chk.rule = ('design: reachable states of the line-level model per scenario and switch setting. spec -> code: every '
+                'behaviour of Gen_MultiEventX (calls of a driver thread, waits of up to two more threads, ticks) to the '
+                'depth bound, replayed on the real class with results / waiting_for() / deadline() / is_set() / actions '
+                'run / blocked waiters compared after every step; a case is distinct by its step sequence, non-trivial '
+                'if a wait blocked or an action ran. code -> spec: (scenario, schedule) pairs of the real class under '
+                'the deterministic scheduler with line-level preemption (bounded-preemption DFS + random schedules of '
+                'the scenario catalogue, random scripts with random schedules), each recorded execution validated by '
+                'TLC; non-trivial if at least two threads were interleaved')
+    for mod in ('MultiEventX', 'MC_MultiEventX', 'Gen_MultiEventX', 'Trace_MultiEventX', 'MultiEventXCode'):
+        sany(mod)
+
+    # ---- 1 design level + behaviour emission: independent TLC runs side by side
+    fixed = ('server', 'queue', 'late') if quick else FIXED
+    must = [c for c in MUSTFAIL if not quick or c not in ('nolock_once', 'asimpl_wfor', 'asimpl_all')]
+    gens = ['wait', 'queue', 'names']
+    thunks = [lambda: model_check('MC_MultiEventX', f'MC_MultiEventX_{tier}.cfg', timeout=1400, workers=4)]
+    for c in fixed:
+        thunks.append(lambda c=c: model_check('MultiEventXCode', f'MC_MultiEventXCode_fixed_{c}.cfg', timeout=1400, workers=2,
+                                              coverage=not quick))
+    if not quick:
+        for c in FIXED:
+            thunks.append(lambda c=c: model_check('MultiEventXCode', f'MC_MultiEventXCode_live_{c}.cfg', timeout=1400, workers=2))
+    n_ok = len(thunks)
+    for c in must:
+        thunks.append(lambda c=c: run_tlc('MultiEventXCode', f'MC_MultiEventXCode_{c}.cfg', timeout=1400, workers=2))
+    for gname in gens:
+        thunks.append(lambda gname=gname: emit_behaviours('Gen_MultiEventX', f'Gen_MultiEventX_{tier}_{gname}.cfg',
+                                                          maximal_only=False, timeout=1400))
+    out = run_parallel(thunks, width=6)
+    for r in out[:n_ok]:
+        chk.add_tlc(r)
+    for c, r in zip(must, out[n_ok:n_ok + len(must)]):
+        if not (r.violated and r.violated[1] == MUSTFAIL[c]):
+            raise MachineryError(f'MC_MultiEventXCode_{c}.cfg is expected to violate {MUSTFAIL[c]}: {r.violated or r.error}')
+    chk.notes['must_fail_configurations'] = {c: MUSTFAIL[c] for c in must}
+    if not quick:       # no vacuity: every statement of the file is executed in some scenario of the repaired design
+        cnt = {}
+        for r in out[1:1 + len(fixed)]:
+            for k, v in _coverage(r).items():
+                cnt[k] = cnt.get(k, 0) + v
+        never = [a for a in ACTIONS if not cnt.get(a)]
+        if never:
+            raise MachineryError(f'actions of MultiEventXCode never taken in the repaired design: {never}')
+        chk.notes['design_actions_taken'] = len(cnt)
+    behs = []
+    for gname, (r, b) in zip(gens, out[n_ok + len(must):]):
+        chk.add_tlc(r)
+        behs += [(x, GEN_DTO[gname]) for x in b]
+    stage['tlc'] = round(_t.time() - t0, 1)
+
+    # ---- 2 spec -> code
+    step = 1 if quick else 2
+    jobs = behs[chk.seed % step::step]
+    chk.notes['behaviours_sampled'] = f'1 of {step} of {len(behs)}'
+    res = pool_map(_replay_job, jobs)
+    n_isset = 0
+    for (beh, dto), (bad, isset_bad) in zip(jobs, res):
+        chk.impl_traces += 1
+        acts = [[s['act'], s['th'], s['e'], s['a'], s['to'], s['name']] for s in beh]
+        chk.case(json.dumps([dto, acts]), any(s['exp']['blocked'] or s['exp']['ran'] for s in beh))
+        if bad:
+            chk.violation({'module': 'MultiEventX', 'replay_field': bad['field'], 'act': bad['act']},
+                          {'world': 'gen', 'behaviour': beh, 'dto': dto, **bad})
+        if isset_bad:
+            n_isset += 1
+            chk.violation({'module': 'MultiEventX', 'deviation': 'Dev_IsSetInverted'},
+                          {'world': 'gen', 'behaviour': beh, 'dto': dto, 'isset': isset_bad[0]})
+    chk.notes['replays_with_wrong_single_is_set'] = n_isset
+    if jobs:
+        chk.sample({'behaviour': [[s['act'], s['th'], s['e'] or s['a'], s['to']] for s in jobs[len(jobs) // 2][0]]})
+    stage['replay'] = round(_t.time() - t0, 1)
+
+    # ---- 3 code -> spec
+    ejobs = []
+    for name in SCEN:
+        ejobs.append((name, 'dfs', 2 if quick else 3, 150 if quick else 3000))
+        ejobs.append((name, 'rnd', chk.seed + 1, 60 if quick else 1200))
+    nr = 300 if quick else 6000
+    for k in range(8):
+        ejobs.append(('#', 'rscript', chk.seed * 8 + k + 1, nr // 8))
+    runs = []       # (origin, result)
+    for name, mode, out_ in pool_map(_explore_job, ejobs, chunksize=1):
+        for r in out_:
+            org = {'world': 'trace', 'scenario': name, 'choices': r['choices']}
+            if mode == 'rscript':
+                org['seed'] = r['seed']
+            runs.append((org, r))
+    corpus = _corpus()
+    # schedules that showed a deviation once (the ones the design model predicts): replayed on every run
+    for entry, r in zip(corpus, pool_map(_corpus_job, corpus) if corpus else []):
+        runs.insert(0, ({'world': 'trace', 'scenario': entry['scenario'], 'choices': r['choices'], 'corpus': entry['deviation']}, r))
+    keys = {}
+    for i, (org, r) in enumerate(runs):
+        keys.setdefault(json.dumps(r['trace']), []).append(i)
+    traces = [json.loads(k) for k in keys]
+    verdicts, st, trn = _two_pass(traces)
+    chk.states += st
+    chk.transitions += trn
+    count = {}
+    reproduced = {}
+    corpus_hit = {}
+    clean = None
+    seen = set()
+    for k, v in zip(keys, verdicts):
+        for i in keys[k]:
+            org, r = runs[i]
+            sk = (org['scenario'], org.get('seed'), tuple(org['choices']))
+            if sk in seen:
+                continue
+            seen.add(sk)
+            chk.impl_traces += 1
+            chk.case(sk, len(set(org['choices'])) > 1)
+            detail = dict(org, trace=r['trace'])
+            if r['crashes']:
+                chk.violation({'module': 'MultiEventX', 'kind': 'crash', 'exc': sorted(r['crashes'].values())[0][:60]},
+                              dict(detail, crashes=r['crashes']))
+            elif v is None:
+                if clean is None and org['scenario'] == 'server_late':
+                    clean = r['trace']
+            elif v[0] == 'dev':
+                if org.get('corpus') in v[1]:
+                    corpus_hit[org['corpus']] = True
+                for dev in v[1]:
+                    count[dev] = count.get(dev, 0) + 1
+                    if PREDICTED.get(dev) == org['scenario']:
+                        reproduced[dev] = reproduced.get(dev, 0) + 1
+                    chk.violation({'module': 'MultiEventX', 'deviation': dev}, dict(detail, deviations=v[1]))
+            else:
+                l = v[1]
+                ev = r['trace'][l - 1] if 0 < l <= len(r['trace']) else {}
+                chk.violation({'module': 'MultiEventX', 'trace_event': ev.get('ev'), 'op': ev.get('op', ev.get('a', '')),
+                               'exc': ev.get('exc', ''), 'bres': ev.get('bres', '')},
+                              dict(detail, failed_at=l, event=ev))
+    chk.notes['schedules'] = len(seen)
+    chk.notes['distinct_traces'] = len(traces)
+    chk.notes['deviations_needed'] = count
+    chk.notes['predicted_by_design_model_and_reproduced'] = reproduced
+    chk.notes['corpus_schedules_still_deviating'] = sorted(corpus_hit)
+    chk.sample({'trace_prefix': traces[0][:6]})
+    stage['traces'] = round(_t.time() - t0, 1)
+
+    # ---- 4 binding self-test: corrupted recordings must be rejected (also with every deviation allowed)
+    if clean is None:
+        raise MachineryError('no clean execution of the scenario server_late to run the self-test on')
+
+    def late(tr):           # the time-out wait returns one tick late (all later events shifted)
+        j = next(i for i, e in enumerate(tr) if e['ev'] == 'ret' and e['op'] == 'wait' and not e['bres'])
+        for e in tr[j:]:
+            e['vt'] += 1
+
+    def early(tr):          # ... one tick early
+        j = next(i for i, e in enumerate(tr) if e['ev'] == 'ret' and e['op'] == 'wait' and not e['bres'])
+        tr[j]['vt'] -= 1
+        k = j - 1
+        while tr[k]['vt'] > tr[j]['vt']:
+            tr[k]['vt'] = tr[j]['vt']
+            k -= 1
+
+    def untrue(tr):         # True although a sub-event is outstanding
+        next(e for e in tr if e['ev'] == 'ret' and e['op'] == 'wait' and not e['bres'])['bres'] = True
+
+    def names(tr):          # waiting_for() misses the outstanding module
+        next(e for e in tr if e['ev'] == 'ret' and e['op'] == 'wfor')['sres'] = []
+
+    def dline(tr):          # deadline() reports another deadline
+        next(e for e in tr if e['ev'] == 'ret' and e['op'] == 'deadline')['ires'] += 1
+
+    _corrupt_must_be_rejected(clean, (('late', late), ('early', early), ('untrue', untrue), ('names', names), ('deadline', dline)))
+    chk.notes['binding_selftest'] = 5
+    stage['selftest'] = round(_t.time() - t0, 1)
+    chk.notes['wall_until_end_of_stage'] = stage
+    chk.exhaustive = False
+
+
+def replay(chk, rep):
+    d = rep['detail']
+    if d.get('world') == 'gen':
+        bad, isset_bad = replay_behaviour(d['behaviour'], d['dto'])
+        for st in d['behaviour']:
+            print({k: v for k, v in st.items() if k != 'exp'})
+        print('->', json.dumps(bad, indent=1), json.dumps(isset_bad[:2]))
+    elif d.get('world') == 'trace':
+        sc = random_scenario(d['seed']) if d.get('seed') is not None else SCEN[d['scenario']]
+        w = run_scenario(sc, ds.GuidedStrategy(d['choices']))
+        for j, e in enumerate(w.trace, 1):
+            print(j, e)
+        print('crashes', w.crashes, 'failed_at', d.get('failed_at'), 'deviations', d.get('deviations'))
+    else:
+        print(json.dumps(d, indent=1)[:3000])
+    return 0
